@@ -296,6 +296,7 @@ class Facts:
                 targets, value = [st.target], st.value
             elif isinstance(st, ast.AugAssign):
                 targets, value = [st.target], None
+            pre_env = dict(env)  # what was known before the targets are rebound (the right-hand side is evaluated first)
             for t in targets:
                 flat = list(t.elts) if isinstance(t, (ast.Tuple, ast.List)) else [t]
                 for tt in flat:
@@ -315,6 +316,15 @@ class Facts:
             if len(targets) == 1 and value is not None:
                 a = self.atom_of(targets[0])
                 if a is not None:
+                    # `x = A if <test> else B` with a test the facts decide: the value of the branch that is taken
+                    while isinstance(value, ast.IfExp):
+                        tv = self.eval(value.test, pre_env)
+                        if tv is True:
+                            value = value.body
+                        elif tv is False:
+                            value = value.orelse
+                        else:
+                            break
                     v = const_value(value)
                     if v is None and self.rhs_value is not None:
                         v = self.rhs_value(value)
@@ -337,7 +347,12 @@ class Facts:
             else:
                 self._invalidate(st.iter, env)
         elif n.kind in ('with', 'withexit'):
-            self._havoc_nonlocal(env)
+            nested_owned = False
+            if self.cg is not None and self.unit is not None and env.get('holds_global_lock.get()') in TRUTHY and isinstance(st, ast.AsyncWith) and len(st.items) == 1:
+                t0 = self.cg.prog.infer(st.items[0].context_expr, self.unit)
+                nested_owned = t0 is not None and t0.kind == 'cls' and t0.name == 'ReentrantLock'
+            if not nested_owned:  # (entering / leaving a re-entrant lock this context already owns only counts the depth: it does not suspend)
+                self._havoc_nonlocal(env)
             if self.taskvars and self.cg is not None and self.unit is not None:
                 is_async = isinstance(st, ast.AsyncWith)
                 meth = ('__aenter__' if is_async else '__enter__') if n.kind == 'with' else ('__aexit__' if is_async else '__exit__')
@@ -351,6 +366,10 @@ class Facts:
                         written = set()
                     for a in list(env):
                         if a.endswith('.get()') and a[:-6] in self.taskvars and (a[:-6] in written):
+                            # a re-entrant lock entered while this context already owns it is a nested entry: __aenter__ only counts the depth up, and the matching
+                            # __aexit__ counts it down to a value >= 1 and leaves the ownership flag alone (the shape of both methods is what C06.2 checks)
+                            if t is not None and t.kind == 'cls' and t.name == 'ReentrantLock' and a == 'holds_global_lock.get()' and env[a] in TRUTHY:
+                                continue
                             del env[a]
             if n.kind == 'with':
                 for it in st.items:  # type: ignore[union-attr]
